@@ -116,10 +116,10 @@ func (r *RequestContext) Cookie(name string) string {
 		return ""
 	}
 
-	for _, cookie := range strings.Split(values, ";") {
-		if cookieName, cookieValue, ok := strings.Cut(cookie, "="); ok && strings.TrimSpace(cookieName) == name {
-			return strings.TrimSpace(cookieValue)
-		}
+	// parsed the way the HTTP services parse it
+	req := http.Request{Header: http.Header{"Cookie": []string{values}}}
+	if cookie, err := req.Cookie(name); err == nil {
+		return cookie.Value
 	}
 
 	return ""
